@@ -131,6 +131,8 @@ pub struct Ctx {
     nontrivial: bool,
     notes: BTreeMap<String, serde_json::Value>,
     replay: bool,
+    known: Arc<Vec<String>>,
+    tolerated: Vec<String>,
 }
 
 impl Ctx {
@@ -162,6 +164,18 @@ impl Ctx {
     /// True when a single stored case is re-executed (`--replay` or the regression tier).
     pub fn is_replay(&self) -> bool {
         self.replay
+    }
+
+    /// For oracles that can keep going after a recorded (status `known`) finding: returns `true`
+    /// and counts the hit if `signature` is listed in `known_findings.json`, so the oracle can
+    /// exclude that shape and continue checking the rest of the case. Always `false` when a
+    /// stored case is replayed, so a replay file of a known finding still reproduces it.
+    pub fn tolerate(&mut self, signature: &str) -> bool {
+        if self.replay || !self.known.iter().any(|k| k == signature) {
+            return false;
+        }
+        self.tolerated.push(signature.to_string());
+        true
     }
 }
 
@@ -207,6 +221,8 @@ struct SubReport {
     floor: f64,
     wall_s: f64,
 }
+
+pub type Simplifier<T> = Box<dyn Fn(&T) -> Vec<T> + Send + Sync>;
 
 pub enum Mode {
     Run,
@@ -428,6 +444,16 @@ impl Session {
         matches!(self.mode, Mode::Replay(_))
     }
 
+    fn known_signatures(&self) -> Arc<Vec<String>> {
+        Arc::new(
+            self.known
+                .iter()
+                .filter(|k| k.status == "known")
+                .map(|k| k.signature.clone())
+                .collect(),
+        )
+    }
+
     fn is_known(&self, signature: &str) -> bool {
         self.known
             .iter()
@@ -493,9 +519,11 @@ impl Session {
         test: &(dyn Fn(&T, &mut Ctx) -> CaseResult + Send + Sync),
         case: &T,
         replay: bool,
+        known: &Arc<Vec<String>>,
     ) -> (CaseResult, Ctx) {
         let mut ctx = Ctx {
             replay,
+            known: known.clone(),
             ..Ctx::default()
         };
         let result = match catch(|| test(case, &mut ctx)) {
@@ -507,6 +535,17 @@ impl Session {
 
     /// A proptest-driven sub-check. Returns `true` if no (unknown) violation was found.
     pub fn run_prop<T>(&mut self, prop: Prop<T>) -> bool
+    where
+        T: Debug + Clone + Serialize + DeserializeOwned + Send + 'static,
+    {
+        self.run_prop_with(prop, None)
+    }
+
+    /// Like `run_prop`; `simplify` lists structurally simpler variants of a failing case (drop a
+    /// block, an operation, an action, ...). After proptest's own shrinking the runner greedily
+    /// walks these variants, keeping any that still fails with the same signature, which removes
+    /// the irrelevant operations proptest's element-wise shrinking leaves behind in long histories.
+    pub fn run_prop_with<T>(&mut self, prop: Prop<T>, simplify: Option<Simplifier<T>>) -> bool
     where
         T: Debug + Clone + Serialize + DeserializeOwned + Send + 'static,
     {
@@ -529,7 +568,7 @@ impl Session {
                 eprintln!("replay case does not match sub-check {}: {error}", prop.name);
                 std::process::exit(2);
             });
-            let (result, ctx) = Self::run_single(&*prop.test, &case, true);
+            let (result, ctx) = Self::run_single(&*prop.test, &case, true, &self.known_signatures());
             let mut stats = SubStats {
                 evaluations: 1,
                 ..SubStats::default()
@@ -574,7 +613,7 @@ impl Session {
                 continue;
             };
             stats.regression_replayed += 1;
-            let (result, _ctx) = Self::run_single(&*prop.test, &case, true);
+            let (result, _ctx) = Self::run_single(&*prop.test, &case, true, &self.known_signatures());
             if let Err(failure) = result {
                 if self.is_known(&failure.signature) {
                     *stats.known_hits.entry(failure.signature).or_default() += 1;
@@ -624,6 +663,7 @@ impl Session {
                         failure_persistence: None,
                         max_shrink_iters: prop.max_shrink_iters,
                         max_global_rejects: 65_536,
+                        max_shrink_time: 90_000,
                         ..Config::default()
                     };
                     let rng = TestRng::from_seed(RngAlgorithm::ChaCha, &rng_seed);
@@ -642,7 +682,10 @@ impl Session {
                                 return Ok(());
                             }
                         }
-                        let mut ctx = Ctx::default();
+                        let mut ctx = Ctx {
+                            known: known.clone(),
+                            ..Ctx::default()
+                        };
                         let result = match catch(|| (prop.test)(&case, &mut ctx)) {
                             Ok(result) => result,
                             Err(panic) => Err(panic_failure(panic)),
@@ -672,6 +715,9 @@ impl Session {
                                     .entry(failure.signature.clone())
                                     .or_default() += 1;
                             }
+                            for signature in &ctx.tolerated {
+                                *stats.known_hits.entry(signature.clone()).or_default() += 1;
+                            }
                         }
                         match result {
                             Ok(()) => Ok(()),
@@ -689,7 +735,10 @@ impl Session {
                         Ok(()) => None,
                         Err(TestError::Fail(_, minimal)) => {
                             // re-run the minimal case to obtain its own failure description
-                            let mut ctx = Ctx::default();
+                            let mut ctx = Ctx {
+                                known: known.clone(),
+                                ..Ctx::default()
+                            };
                             let failure = match catch(|| (prop.test)(&minimal, &mut ctx)) {
                                 Ok(Err(failure)) => failure,
                                 Err(panic) => panic_failure(panic),
@@ -737,7 +786,30 @@ impl Session {
             }
         }
         let ok = failures.is_empty();
-        // report every shard's minimal failure (they may differ); first one is canonical
+        // only the first shard's failure is minimised further and reported (others are the same
+        // search seen from a different seed)
+        failures.truncate(1);
+        if let (Some(simplify), Some((case, failure))) = (&simplify, failures.first_mut()) {
+            let budget = Instant::now() + std::time::Duration::from_secs(120);
+            let known = self.known_signatures();
+            'outer: loop {
+                for candidate in simplify(case) {
+                    if Instant::now() > budget {
+                        break 'outer;
+                    }
+                    let (result, _) = Self::run_single(&*prop.test, &candidate, false, &known);
+                    if let Err(candidate_failure) = result {
+                        if candidate_failure.signature == failure.signature {
+                            *case = candidate;
+                            *failure = candidate_failure;
+                            continue 'outer;
+                        }
+                    }
+                }
+                break;
+            }
+        }
+        // report the minimal failure
         for (case, failure) in failures {
             let path = self.write_violation(prop.name, &case, &failure);
             if self.violations.iter().any(|(_, p, _)| *p == path) {
@@ -808,7 +880,7 @@ impl Session {
                 eprintln!("replay case does not match sub-check {name}");
                 std::process::exit(2);
             };
-            let (result, _) = Self::run_single(&test, &case, true);
+            let (result, _) = Self::run_single(&test, &case, true, &self.known_signatures());
             let mut stats = SubStats {
                 evaluations: 1,
                 ..SubStats::default()
@@ -850,7 +922,10 @@ impl Session {
                 stats.exhaustive = false;
                 break;
             }
-            let (result, ctx) = Self::run_single(&test, case, idx < regression);
+            let (result, ctx) = Self::run_single(&test, case, idx < regression, &self.known_signatures());
+            for signature in &ctx.tolerated {
+                *stats.known_hits.entry(signature.clone()).or_default() += 1;
+            }
             if idx >= regression {
                 stats.evaluations += 1;
                 for label in &ctx.labels {
